@@ -1005,6 +1005,8 @@ def _inline_module_constants(tree: ast.Module) -> bool:
             def visit_Name(self, node):
                 nonlocal changed
                 if isinstance(node.ctx, ast.Load) and node.id in consts and node.id not in local:
+                    if any(isinstance(x, ast.Name) and x.id in local for x in ast.walk(consts[node.id])):
+                        return node  # a name in the constant's value is shadowed here
                     changed = True
                     return ast.copy_location(copy.deepcopy(consts[node.id]), node)
                 return node
